@@ -1,6 +1,8 @@
 import Percival.Proofs.Http
 import Percival.Proofs.HttpSamples
 import Percival.Proofs.HttpRes
+import Percival.Proofs.HttpStep
+import Percival.Proofs.HttpReader
 /-!
 # C08 — the HTTP client is memory-safe and terminates cleanly on any server byte stream
 
@@ -331,5 +333,116 @@ theorem cancel_frees_and_cancels_everything (r : RSt) (cc : Nat) (h : Cons r cc)
 /-- a state holding everything a request can hold at once is consistent (as is the state right after
     `http_request()`, `Proofs.HttpRes.cons_httpRequest`) -/
 example : Cons exFull 0 := exFull_cons
+
+/-! ## the function the executable runs (`pmodel http`: `Model/HttpStep.lean`, components `httpmal` and `httpwf`) -/
+
+open Percival.Model.HttpStep in
+/-- **Every `run` line the executable prints (`httpmal`: hostile streams, and every other case).**  `runCase` is
+the function behind a `run` line: it plays the request of the configuration `c` — any server byte stream, any
+`recv` script (any segment sizes, EAGAINs), EOF or reset at the end, any request, any body limit, refused
+connection, a failing `send` at any offset, a cancellation after any wait or any `recv` — against
+`Model.HttpRes.runAllR` with the scripted reader `readerTurn` as environment and `glibcOvf` for out-of-range
+numerals.  For **every** configuration: the model does not abort, fault, or invoke the callback twice (none of
+`abort …`, `abort resource-fault`, `abort model: n callbacks`, `abort request-length-assert` can be printed);
+the line printed is a `cb=…` line whose `range=` verdict is `ok`, with nothing live, no descriptor and no
+registration; it reports either a cancelled request without callback or exactly one callback, and a response
+handed over has a status in 100..599 and a body no longer than the limit.  `spec-mismatch` can only be printed
+when the case carries a response value (`httpwf`; excluded under the hypotheses of `C09.exec_wellformed_decoded`). -/
+theorem exec_answer_in_range (c : Cfg) (g : Bool) :
+    (∃ resp, runCase c g = .specMismatch resp ∧ c.wf.isSome = true) ∨
+    (∃ cb resp sent rs tr, runCase c g = .fin g c.early cb resp sent true rs tr ∧
+      rs.live = [] ∧ rs.fds = 0 ∧ rs.regs = 0 ∧
+      (match resp with
+       | none => cb = 0
+       | some none => cb = 1
+       | some (some x) => cb = 1 ∧ 100 ≤ x.status ∧ x.status ≤ 599 ∧
+          (match x.body with
+           | some b => b.length ≤ c.limit
+           | none => True))) := by
+  have h := Percival.Proofs.HttpStep.runCase_ok c g
+  generalize runCase c g = out at h
+  cases out with
+  | specMismatch resp => exact Or.inl ⟨resp, rfl, h⟩
+  | fin g' early cb resp sent rok rs tr =>
+    obtain ⟨rfl, rfl, rfl, h4, h5, h6, h7⟩ := h
+    refine Or.inr ⟨cb, resp, sent, rs, tr, rfl, h4, h5, h6, ?_⟩
+    cases resp with
+    | none => exact h7
+    | some y =>
+      cases y with
+      | none => exact h7.1
+      | some x =>
+        refine ⟨h7.1, ?_⟩
+        have h8 := h7.2
+        simp only [rangeOk, Bool.and_eq_true, decide_eq_true_eq] at h8
+        refine ⟨h8.1.1, h8.1.2, ?_⟩
+        cases hb : x.body with
+        | none => trivial
+        | some b => rw [hb] at h8; simpa using h8.2
+  | abortReq => exact absurd h (by simp [Percival.Proofs.HttpStep.RunOK])
+  | abort w ws => exact absurd h (by simp [Percival.Proofs.HttpStep.RunOK])
+  | fault e ws => exact absurd h (by simp [Percival.Proofs.HttpStep.RunOK])
+  | badCallbacks n => exact absurd h (by simp [Percival.Proofs.HttpStep.RunOK])
+
+/-- a hostile case (the sample stream cut after 40 bytes, then a reset, in 3-byte segments): one callback with `NULL`;
+    and a complete one with limit 1: the callback gets status 200 and no body buffer (too big) -/
+example :
+    (match Percival.Model.HttpStep.runCase Percival.Proofs.HttpStep.exMal true,
+           Percival.Model.HttpStep.runCase { Percival.Proofs.HttpStep.exMal with
+             chunks := [Percival.Proofs.HttpSamples.sampleStream], limit := 1 } true with
+     | .fin true false 1 (some none) _ true _ _, .fin true false 1 (some (some x)) _ true _ _ =>
+         decide (x.status = 200) && x.body == none
+     | _, _ => false) = true := by decide +kernel
+
+open Percival.Model Percival.Model.HttpStep Percival.Proofs.HttpReader Percival.Proofs.NetbufRead in
+/-- **The scripted reader against the proved model of `netbuf_read.c`** (`Model.NetbufRead`, C07), step by step.
+`Model.HttpStep.Reader` keeps only the buffer *geometry* (`cap`/`bufpos`/`datalen`; the bytes a handler sees are a
+prefix of the stream inside `runAllR`).  Whenever it has the geometry of a `NetbufRead.R` in a consistent state
+(`Geo`: `bufpos ≤ datalen ≤ buflen = |buf|`) with no wait outstanding:
+
+1. `netbuf_read_consume(c)` followed by `netbuf_read_wait(k)` of `Model.NetbufRead` succeeds inside its buffer, shows
+   the old window without its first `c` bytes, is *immediate* exactly when `readerWait` answers at once, and
+   otherwise registers a transport read with room for `k` bytes in a buffer whose geometry — grown to
+   `max(2·buflen, k)`, compacted, or unchanged — is exactly that of the state `prep rd c k` which `readerWait` hands
+   to its event loop (`readerWait_eq`);
+2. a `recv` which delivers `d` (non-empty, within the space offered) makes `callback_read` append `d` to the
+   window, add `|d|` to `datalen` — what `fill` does to its count — and complete the wait (status 0) exactly when
+   `waitlen` bytes are buffered, which is `fill`'s test.
+
+Full statement, **not proved** (`exec_reader_refines_netbuf`): for every script of `recv` answers and every sequence of
+waits the HTTP model issues, `readerWait rd c k` answers `.more e` / `.eof` / `.err` exactly when `Model.NetbufRead`, driven
+over the same script (`recvOne` with the space `buflen - datalen` of its own request, the stream's bytes cut
+accordingly), invokes the callback with status 0 and `k + e` bytes in its window / 1 / -1, with equal geometry
+afterwards.  Missing: the induction over `fill` which chains (2) along the script (it needs `recvOne` on two readers
+which differ only in geometry, and `NetbufRead.callbackRead` for EOF / error as in `Proofs.NetbufRead.net_end_rel`).
+With it, `C07.reader_refines` would make the window the abstract stream's `received.drop consumed`; the counts the run
+uses (`avail + remaining` is kept, `.eof` only with the whole stream received) are proved directly in
+`Proofs.HttpStep.readerWait_spec`. -/
+theorem exec_reader_refines_netbuf_partial :
+    (∀ (rd : Reader) (nb : NetbufRead.R) (c k : Nat), Geo nb → nb.pending = .none → SameGeo rd nb →
+      c ≤ nb.datalen - nb.bufpos →
+      ∃ nb2, (NetbufRead.consume nb c >>= fun nb1 => NetbufRead.wait nb1 k) = .ok nb2 ∧ Geo nb2 ∧
+        window nb2 = (window nb).drop c ∧
+        (k ≤ nb.datalen - nb.bufpos - c →
+          nb2.pending = .immediate ∧ SameGeo { rd with bufpos := rd.bufpos + c } nb2) ∧
+        (¬ k ≤ nb.datalen - nb.bufpos - c →
+          nb2.pending = .read ∧ nb2.waitlen = k ∧ k ≤ nb2.buflen - nb2.bufpos ∧ SameGeo (prep rd c k) nb2)) ∧
+    (∀ (nb : NetbufRead.R) (d : List UInt8), Geo nb → nb.pending = .read → nb.waitlen ≤ nb.buflen - nb.bufpos →
+      d.length ≠ 0 → d.length ≤ nb.buflen - nb.datalen →
+      ∃ nb' st, NetbufRead.callbackRead nb (.data d) = .ok (nb', st) ∧ Geo nb' ∧ window nb' = window nb ++ d ∧
+        nb'.buflen = nb.buflen ∧ nb'.bufpos = nb.bufpos ∧ nb'.datalen = nb.datalen + d.length ∧
+        nb'.waitlen = nb.waitlen ∧
+        (nb.waitlen ≤ nb.datalen + d.length - nb.bufpos → st = some 0 ∧ nb'.pending = .none) ∧
+        (¬ nb.waitlen ≤ nb.datalen + d.length - nb.bufpos → st = none ∧ nb'.pending = .read)) :=
+  ⟨fun rd nb c k h1 h2 h3 h4 => wait_geometry rd nb c k h1 h2 h3 h4,
+   fun nb d h1 h2 h3 h4 h5 => recv_geometry nb d h1 h2 h3 h4 h5⟩
+
+open Percival.Model Percival.Model.HttpStep Percival.Proofs.HttpReader Percival.Proofs.NetbufRead in
+/-- the hypotheses hold at the start of every case (the reader of `initReader` has the geometry of
+    `netbuf_read_init`'s state), and for a reader with a transport read outstanding -/
+example : Geo NetbufRead.init ∧ NetbufRead.init.pending = .none ∧
+    SameGeo (initReader {} []) NetbufRead.init ∧
+    Geo { NetbufRead.init with pending := .read, waitlen := 5 } :=
+  ⟨rel_init.geo, rfl, ⟨rfl, rfl, rfl⟩, ⟨rel_init.geo.len, Nat.le_refl _, Nat.zero_le _⟩⟩
 
 end Percival.C08
